@@ -290,6 +290,13 @@ retry_fetch_lv:
             if (bnv_cb(target_border->get_version_ptr(), v_at_fetch_lv)) { return status::WARN_ABORTED_BY_USER; }
         }
 
+        if (right_to_left && traverse_endpoint == scan_endpoint::INF) {
+            // Nothing has been consumed yet: the position must not look like a real entry.
+            // key_tuple::max() ({~0, 9}) is the tuple of a link with slice FF..FF; if the end key
+            // starts with that slice, findnext would take "last key == end tuple" for an exhausted
+            // range and report no border at all to the callback.
+            key_tup = key_tuple{~key_slice_type{0}, sizeof(key_slice_type) + 2};
+        }
         ctx->stack(key_tup, root, target_border, cmp_to_end,
                    {v_at_fb, permutation(target_border->get_permutation().get_body()), 0});
         return status::OK_SCAN_CONTINUE; // pass to findnext
